@@ -41,7 +41,7 @@ res "$out" applies yes
 if (cd "$wt" && go build ./... 2>&1 | tail -3); [ -n "$(cd "$wt" && go build ./... 2>&1)" ]; then res "$out" builds no; echo "$id: does not build"; exit 1; fi
 res "$out" builds yes
 t0=$(date +%s)
-(cd "$wt" && go test -p 6 -json -vet=off -count=1 -timeout 25m ./... > "$wt/.suite.json" 2>/dev/null)
+(cd "$wt" && go test -p 3 -json -vet=off -count=1 -timeout 25m ./... > "$wt/.suite.json" 2>/dev/null)
 verdict=$(python3 tools/suite_verdict.py "$wt/.suite.json")
 res "$out" suite_with_patch "$verdict ($(( $(date +%s) - t0 )) s; go test -json -vet=off -count=1 ./...)"
 case "$verdict" in FAIL*) echo "$id: existing suite fails with the patch: $verdict";; esac
